@@ -192,6 +192,22 @@ pub fn run(ctx: &Ctx) -> i32 {
     }
     part
   });
+  let (_, lit_floats) = source_literals();
+  let mut extra_pos: Vec<(f64, f64)> = degree_positions();
+  for &x in &lit_floats {
+    for s in [-1.0, 1.0] {
+      if (s * x).abs() <= HALF_PI {
+        extra_pos.push((0.31, s * x));
+        extra_pos.push((s * x, 0.2));
+      }
+    }
+  }
+  for (lon, lat) in extra_pos {
+    total.stratum("degrees-and-source-literals", 1, 3);
+    if let Some(v) = check_pos(lon, lat, &mut total) {
+      total.viol(v);
+    }
+  }
   for (lon, lat) in exponent_sweep_positions() {
     total.stratum("exponent-sweep", 1, 3);
     if let Some(v) = check_pos(lon, lat, &mut total) {
